@@ -4,6 +4,7 @@ package mc
 
 import (
 	"os"
+	"sort"
 	"strconv"
 	"time"
 )
@@ -31,8 +32,63 @@ var roots0123 = []string{"R0", "R1", "R2", "R3"}
 
 const ruleW = "every op sequence up to the stated depth over the stated alphabet from every stated root is executed as real blocks (signed txs through FinalizeBlock/Commit); a state is distinct by (app hash, height, block time, feeder prices); the oracle is evaluated after every block"
 
-// WConfigs maps a property id to its Engine-W configuration.
+// unionProps are the properties whose oracle is a pure STATE invariant (plus alphabet-independent
+// transition clauses): in the thorough tier each of them is additionally explored over the UNION of
+// all their alphabets — a seeded change was more than once caught by a neighbouring property's
+// alphabet rather than by the property's own.
+var unionProps = []string{"C01", "C02", "C06", "C08", "C09", "C11", "C12", "C13", "C15"}
+
+func unionOps() []string {
+	seen := map[string]bool{}
+	var out []string
+	for _, p := range unionProps {
+		c := wConfig(p, "quick")
+		for _, ph := range c.Phases {
+			for _, o := range ph.Ops {
+				if !seen[o] {
+					seen[o] = true
+					out = append(out, o)
+				}
+			}
+		}
+	}
+	sort.Strings(out)
+	return out
+}
+
+// WConfig maps a property id to its Engine-W configuration.
 func WConfig(prop, tier string) *Config {
+	cfg := wConfig(prop, tier)
+	if cfg == nil || tier != "thorough" {
+		return cfg
+	}
+	for _, p := range unionProps {
+		if p == prop {
+			cfg.Phases = append(cfg.Phases, Phase{Name: "union-alphabet-depth2", Roots: []string{"R1"}, Ops: unionOps(), Depth: 2, Dev: 3})
+		}
+	}
+	return devOnlyPhase(cfg)
+}
+
+// devOnlyPhase: development aid (VERIF_ONLY_PHASE=<name>): run one phase only; the run is then never
+// reported as exhaustive.
+func devOnlyPhase(cfg *Config) *Config {
+	only := os.Getenv("VERIF_ONLY_PHASE")
+	if only == "" {
+		return cfg
+	}
+	var keep []Phase
+	for _, ph := range cfg.Phases {
+		if ph.Name == only {
+			keep = append(keep, ph)
+		}
+	}
+	cfg.Phases = keep
+	cfg.Assumptions = append(cfg.Assumptions, "DEVELOPMENT RUN: only phase "+only+" (VERIF_ONLY_PHASE); not a verdict for the tier")
+	return cfg
+}
+
+func wConfig(prop, tier string) *Config {
 	thorough := tier == "thorough"
 	cfg := &Config{Property: prop, Tier: tier, Deadline: deadlineFor(tier), Rule: ruleW, ValidateMod: 12}
 	if thorough {
